@@ -50,6 +50,8 @@ Items == {
                    <<Kw("m", Bin("-", I(0), Bin("**", Par("s"), I(3)))), Kw("r", NegE([t |-> "brk", a |-> Bin("**", Reg(0), I(2))]))>>, <<I(1)>>, "none"),
   \* measured registers (one- and two-digit) inside a list-valued keyword, next to a parameter element; strings that look like other things
   Stmt("Lr", TRUE, <<SStr("1.5"), SStr("p0")>>, <<Kw("k", LstE(<<Reg(10), F(1, 2), Bin("*", I(2), Reg(1)), Par("a"), SStr("True"), SStr("{a}")>>)), Kw("z", Cpx(2, 0))>>, <<I(2)>>, "none"),
+  \* list elements that mix template parameters and measured registers (several of each in one element)
+  Stmt("Lm", TRUE, <<I(1)>>, <<Kw("select", LstE(<<Bin("+", Bin("*", Par("a"), Reg(0)), Par("ab")), Bin("-", Par("s"), Reg(1)), Bin("*", Bin("*", Reg(10), Par("al")), Reg(2))>>))>>, <<I(2), I(3)>>, "sq"),
   \* complex coefficients of a parameter and of a measured register
   Stmt("Ci", TRUE, <<Bin("*", Par("s"), Cpx(0, 1)), Bin("+", Bin("*", Cpx(1, 2), Par("a")), I(1))>>, <<Kw("z", Bin("*", Cpx(0, 2), Reg(1)))>>, <<I(0)>>, "none"),
   Stmt("Rg", TRUE, <<Reg(0), Bin("*", I(2), Reg(1))>>, <<Kw("phi", Bin("+", Bin("*", F(1, 2), Reg(10)), Reg(1)))>>, <<I(2)>>, "none"),
